@@ -28,62 +28,62 @@ EXPECTED = {
     'filter': 'λ builtins.filter(⟨P0⟩, INPUT)',
     'reduce': 'λ {cmp:Is(⟨P1⟩,Const(MISSING))=F -> ret call:functools.reduce(⟨P0⟩,INPUT,⟨P1⟩) | cmp:Is(⟨P1⟩,Const(MISSING))=T -> ret call:functools.reduce(⟨P0⟩,INPUT)}',
     'into': 'step call:isinstance(INPUT,ext<typing.Mapping>)=F -> ret call:⟨P0⟩(star(INPUT)) | call:isinstance(INPUT,ext<typing.Mapping>)=T -> ret call:⟨P0⟩(kw:**(INPUT))',
-    'flatten': 'λ { -> ret Coll(elem(elem(INPUT)))}',
+    'flatten': 'λ Coll(elem(elem(INPUT)))',
     'flatmap': 'λ builtins.map(⟨P0⟩, INPUT) >> itertools.chain.from_iterable',
-    'map_items': 'ID >> λ INPUT.items() >> λ builtins.map(⟨step call:isinstance(INPUT,ext<typing.Mapping>)=F -> ret call:⟨P0⟩(star(INPUT)) | call:isinstance(INPUT,ext<typing.Mapping>)=T -> ret call:⟨P0⟩(kw:**(INPUT))⟩, INPUT) >> dict >> types.MappingProxyType',
-    'map_keys': 'ID >> λ INPUT.items() >> λ builtins.map(⟨step call:isinstance(INPUT,ext<typing.Mapping>)=F -> ret call:⟨λ (⟨P0⟩(INPUT0), INPUT1)⟩(star(INPUT)) | call:isinstance(INPUT,ext<typing.Mapping>)=T -> ret call:⟨λ (⟨P0⟩(INPUT0), INPUT1)⟩(kw:**(INPUT))⟩, INPUT) >> dict >> types.MappingProxyType',
-    'map_values': 'ID >> λ INPUT.items() >> λ builtins.map(⟨step call:isinstance(INPUT,ext<typing.Mapping>)=F -> ret call:⟨λ (INPUT0, ⟨P0⟩(INPUT1))⟩(star(INPUT)) | call:isinstance(INPUT,ext<typing.Mapping>)=T -> ret call:⟨λ (INPUT0, ⟨P0⟩(INPUT1))⟩(kw:**(INPUT))⟩, INPUT) >> dict >> types.MappingProxyType',
-    'filter_items': 'ID >> λ INPUT.items() >> λ builtins.filter(⟨step call:isinstance(INPUT,ext<typing.Mapping>)=F -> ret call:⟨P0⟩(star(INPUT)) | call:isinstance(INPUT,ext<typing.Mapping>)=T -> ret call:⟨P0⟩(kw:**(INPUT))⟩, INPUT) >> dict >> types.MappingProxyType',
-    'filter_keys': 'ID >> λ INPUT.items() >> λ builtins.filter(⟨step call:isinstance(INPUT,ext<typing.Mapping>)=F -> ret call:⟨λ ⟨P0⟩(INPUT0)⟩(star(INPUT)) | call:isinstance(INPUT,ext<typing.Mapping>)=T -> ret call:⟨λ ⟨P0⟩(INPUT0)⟩(kw:**(INPUT))⟩, INPUT) >> dict >> types.MappingProxyType',
-    'filter_values': 'ID >> λ INPUT.items() >> λ builtins.filter(⟨step call:isinstance(INPUT,ext<typing.Mapping>)=F -> ret call:⟨λ ⟨P0⟩(INPUT1)⟩(star(INPUT)) | call:isinstance(INPUT,ext<typing.Mapping>)=T -> ret call:⟨λ ⟨P0⟩(INPUT1)⟩(kw:**(INPUT))⟩, INPUT) >> dict >> types.MappingProxyType',
-    'concat': 'λ itertools.chain(INPUT, ⟨P0⟩)',
-    'append': 'λ itertools.chain(INPUT, ⟨tuple[[P0]]⟩)',
-    'intersect': 'λ set(INPUT) & set(⟨P0⟩)',
-    'union': 'λ set(INPUT) | set(⟨P0⟩)',
-    'difference': 'λ set(INPUT) - set(⟨P0⟩)',
-    'symmetric_difference': 'λ set(INPUT) ^ set(⟨P0⟩)',
+    'map_items': 'ID >> λ call:items(INPUT) >> λ builtins.map(⟨step call:isinstance(INPUT,ext<typing.Mapping>)=F -> ret call:⟨P0⟩(star(INPUT)) | call:isinstance(INPUT,ext<typing.Mapping>)=T -> ret call:⟨P0⟩(kw:**(INPUT))⟩, INPUT) >> dict >> types.MappingProxyType',
+    'map_keys': 'ID >> λ call:items(INPUT) >> λ builtins.map(⟨step call:isinstance(INPUT,ext<typing.Mapping>)=F -> ret call:⟨λ Seq[call:⟨P0⟩(INPUT0),INPUT1]⟩(star(INPUT)) | call:isinstance(INPUT,ext<typing.Mapping>)=T -> ret call:⟨λ Seq[call:⟨P0⟩(INPUT0),INPUT1]⟩(kw:**(INPUT))⟩, INPUT) >> dict >> types.MappingProxyType',
+    'map_values': 'ID >> λ call:items(INPUT) >> λ builtins.map(⟨step call:isinstance(INPUT,ext<typing.Mapping>)=F -> ret call:⟨λ Seq[INPUT0,call:⟨P0⟩(INPUT1)]⟩(star(INPUT)) | call:isinstance(INPUT,ext<typing.Mapping>)=T -> ret call:⟨λ Seq[INPUT0,call:⟨P0⟩(INPUT1)]⟩(kw:**(INPUT))⟩, INPUT) >> dict >> types.MappingProxyType',
+    'filter_items': 'ID >> λ call:items(INPUT) >> λ builtins.filter(⟨step call:isinstance(INPUT,ext<typing.Mapping>)=F -> ret call:⟨P0⟩(star(INPUT)) | call:isinstance(INPUT,ext<typing.Mapping>)=T -> ret call:⟨P0⟩(kw:**(INPUT))⟩, INPUT) >> dict >> types.MappingProxyType',
+    'filter_keys': 'ID >> λ call:items(INPUT) >> λ builtins.filter(⟨step call:isinstance(INPUT,ext<typing.Mapping>)=F -> ret call:⟨λ call:⟨P0⟩(INPUT0)⟩(star(INPUT)) | call:isinstance(INPUT,ext<typing.Mapping>)=T -> ret call:⟨λ call:⟨P0⟩(INPUT0)⟩(kw:**(INPUT))⟩, INPUT) >> dict >> types.MappingProxyType',
+    'filter_values': 'ID >> λ call:items(INPUT) >> λ builtins.filter(⟨step call:isinstance(INPUT,ext<typing.Mapping>)=F -> ret call:⟨λ call:⟨P0⟩(INPUT1)⟩(star(INPUT)) | call:isinstance(INPUT,ext<typing.Mapping>)=T -> ret call:⟨λ call:⟨P0⟩(INPUT1)⟩(kw:**(INPUT))⟩, INPUT) >> dict >> types.MappingProxyType',
+    'concat': 'λ Seq[star(INPUT),star(⟨P0⟩)]',
+    'append': 'λ Seq[star(INPUT),star(⟨tuple[[P0]]⟩)]',
+    'intersect': 'λ binop:BitAnd(set(INPUT),set(⟨P0⟩))',
+    'union': 'λ binop:BitOr(set(INPUT),set(⟨P0⟩))',
+    'difference': 'λ binop:Sub(set(INPUT),set(⟨P0⟩))',
+    'symmetric_difference': 'λ binop:BitXor(set(INPUT),set(⟨P0⟩))',
     'get': 'λ { -> ret getitem(INPUT,⟨P0⟩) | cmp:Is(⟨P1⟩,Const(MISSING))=F & except (KeyError, IndexError) -> ret ⟨P1⟩}',
     'get_from': 'λ { -> ret getitem(⟨P0⟩,INPUT) | cmp:Is(⟨P1⟩,Const(MISSING))=F & except (KeyError, IndexError) -> ret ⟨P1⟩}',
-    'add': 'λ INPUT + ⟨P0⟩',
-    'subtract': 'λ INPUT - ⟨P0⟩',
-    'multiply': 'λ INPUT * ⟨P0⟩',
-    'left_multiply': 'λ ⟨P0⟩ * INPUT',
-    'divide_by': 'λ INPUT / ⟨P0⟩',
-    'divide_into': 'λ ⟨P0⟩ / INPUT',
-    'negate': 'λ { -> ret unop:USub(INPUT)}',
-    'modulo': 'λ INPUT % ⟨P0⟩',
-    'merge': 'λ {**INPUT, **⟨P0⟩}',
+    'add': 'λ binop:Add(INPUT,⟨P0⟩)',
+    'subtract': 'λ binop:Sub(INPUT,⟨P0⟩)',
+    'multiply': 'λ binop:Mult(INPUT,⟨P0⟩)',
+    'left_multiply': 'λ binop:Mult(⟨P0⟩,INPUT)',
+    'divide_by': 'λ binop:Div(INPUT,⟨P0⟩)',
+    'divide_into': 'λ binop:Div(⟨P0⟩,INPUT)',
+    'negate': 'λ unop:USub(INPUT)',
+    'modulo': 'λ binop:Mod(INPUT,⟨P0⟩)',
+    'merge': 'λ dict(dstar(INPUT),dstar(⟨P0⟩))',
     'length': 'len',
-    'instance_of': 'λ isinstance(INPUT, ⟨tuple[[*P0[*] …]]⟩)',
-    'all': 'λ builtins.all((f(INPUT) for f in ⟨tuple[[*P0[*] …]]⟩))',
-    'any': 'λ builtins.any((f(INPUT) for f in ⟨tuple[[*P0[*] …]]⟩))',
-    'invert': 'λ not ⟨P0⟩(INPUT)',
-    'eq': 'λ INPUT == ⟨P0⟩',
-    'ne': 'λ INPUT != ⟨P0⟩',
-    'gt': 'λ INPUT > ⟨P0⟩',
-    'ge': 'λ INPUT >= ⟨P0⟩',
-    'lt': 'λ INPUT < ⟨P0⟩',
-    'le': 'λ INPUT <= ⟨P0⟩',
-    'has_remainder': 'λ INPUT % ⟨P0⟩ == ⟨P1⟩',
-    'positive': 'λ INPUT > ⟨0⟩',
-    'negative': 'λ INPUT < ⟨0⟩',
-    'non_positive': 'λ INPUT <= ⟨0⟩',
-    'non_negative': 'λ INPUT >= ⟨0⟩',
-    'even': 'λ INPUT % ⟨2⟩ == ⟨0⟩',
-    'odd': 'λ INPUT % ⟨2⟩ == ⟨1⟩',
-    'is_none': 'λ INPUT is None',
-    'is_not_none': 'λ not ⟨labrea.functions.is_none⟩(INPUT)',
-    'is_in': 'λ INPUT in ⟨P0⟩',
-    'is_not_in': 'λ not ⟨λ INPUT in ⟨P0⟩⟩(INPUT)',
-    'one_of': 'λ INPUT in ⟨tuple[[*P0[*] …]]⟩',
-    'none_of': 'λ not ⟨λ INPUT in ⟨tuple[[*P0[*] …]]⟩⟩(INPUT)',
-    'contains': 'λ ⟨P0⟩ in INPUT',
-    'does_not_contain': 'λ not ⟨λ ⟨P0⟩ in INPUT⟩(INPUT)',
-    'intersects': 'λ set(INPUT) & set(⟨P0⟩) >> bool',
-    'disjoint_from': 'λ not ⟨λ set(INPUT) & set(⟨P0⟩) >> bool⟩(INPUT)',
+    'instance_of': 'λ call:isinstance(INPUT,⟨tuple[[*P0[*] …]]⟩)',
+    'all': 'λ call:builtins.all(Coll(callres(elem(⟨tuple[[*P0[*] …]]⟩),INPUT)))',
+    'any': 'λ call:builtins.any(Coll(callres(elem(⟨tuple[[*P0[*] …]]⟩),INPUT)))',
+    'invert': 'λ unop:Not(call:⟨P0⟩(INPUT))',
+    'eq': 'λ cmp:Eq(INPUT,⟨P0⟩)',
+    'ne': 'λ cmp:NotEq(INPUT,⟨P0⟩)',
+    'gt': 'λ cmp:Gt(INPUT,⟨P0⟩)',
+    'ge': 'λ cmp:GtE(INPUT,⟨P0⟩)',
+    'lt': 'λ cmp:Lt(INPUT,⟨P0⟩)',
+    'le': 'λ cmp:LtE(INPUT,⟨P0⟩)',
+    'has_remainder': 'λ cmp:Eq(binop:Mod(INPUT,⟨P0⟩),⟨P1⟩)',
+    'positive': 'λ cmp:Gt(INPUT,⟨0⟩)',
+    'negative': 'λ cmp:Lt(INPUT,⟨0⟩)',
+    'non_positive': 'λ cmp:LtE(INPUT,⟨0⟩)',
+    'non_negative': 'λ cmp:GtE(INPUT,⟨0⟩)',
+    'even': 'λ cmp:Eq(binop:Mod(INPUT,⟨2⟩),⟨0⟩)',
+    'odd': 'λ cmp:Eq(binop:Mod(INPUT,⟨2⟩),⟨1⟩)',
+    'is_none': 'λ cmp:Is(INPUT,Const(None))',
+    'is_not_none': 'λ unop:Not(call:⟨labrea.functions.is_none⟩(INPUT))',
+    'is_in': 'λ cmp:In(INPUT,⟨P0⟩)',
+    'is_not_in': 'λ unop:Not(call:⟨λ cmp:In(INPUT,⟨P0⟩)⟩(INPUT))',
+    'one_of': 'λ cmp:In(INPUT,⟨tuple[[*P0[*] …]]⟩)',
+    'none_of': 'λ unop:Not(call:⟨λ cmp:In(INPUT,⟨tuple[[*P0[*] …]]⟩)⟩(INPUT))',
+    'contains': 'λ cmp:In(⟨P0⟩,INPUT)',
+    'does_not_contain': 'λ unop:Not(call:⟨λ cmp:In(⟨P0⟩,INPUT)⟩(INPUT))',
+    'intersects': 'λ binop:BitAnd(set(INPUT),set(⟨P0⟩)) >> bool',
+    'disjoint_from': 'λ unop:Not(call:⟨λ binop:BitAnd(set(INPUT),set(⟨P0⟩)) >> bool⟩(INPUT))',
     'ensure': "cmp:Is(P1,Const(MISSING))=F ⇒ λ {call:⟨P0⟩(INPUT)=F -> raise new:AssertionError(⟨P1⟩) | call:⟨P0⟩(INPUT)=T -> ret INPUT} || cmp:Is(P1,Const(MISSING))=T ⇒ λ {call:⟨P0⟩(INPUT)=F -> raise new:AssertionError(⟨fstr('Predicate ', fmt!r(P0), ' failed')⟩) | call:⟨P0⟩(INPUT)=T -> ret INPUT}",
-    'get_attribute': 'λ getattr(INPUT, ⟨P0⟩)',
-    'call_method': 'λ { -> ret callres(getattr(INPUT,⟨P0⟩),star(⟨*P1⟩),kw:**(⟨**PK⟩))}',
+    'get_attribute': 'λ getattr(INPUT,⟨P0⟩)',
+    'call_method': 'λ callres(getattr(INPUT,⟨P0⟩),star(⟨*P1⟩),kw:**(⟨**PK⟩))',
 }
 
 
